@@ -62,13 +62,23 @@ def _raised_inside_implementation(e):
     traceback arrives as text - else None."""
     import re
     text = "".join(traceback.format_exception(type(e), e, e.__traceback__))
+    # a worker process' traceback arrives as the text of the exception's cause, printed BEFORE the parent's own frames:
+    # the first segment is where the exception was really raised
+    text = text.split("The above exception was the direct cause of the following exception")[0]
     frames = re.findall(r'File "([^"]+)", line (\d+), in (\S+)', text)
     if not frames:
         return None
-    f, line, fn = frames[-1]
     root = os.path.join(os.path.realpath(common.REPO), "qstrader") + os.sep
-    if os.path.realpath(f).startswith(root):
-        return ("%s:%s" % (os.path.relpath(os.path.realpath(f), os.path.realpath(common.REPO)), line), fn)
+    mine = os.path.dirname(os.path.realpath(__file__)) + os.sep
+    # the deepest frame that is neither a third-party library nor the standard library decides: when it lies in the
+    # implementation (which then called into pandas / numpy and failed there), the implementation crashed; when it
+    # lies in the harness, the harness did
+    for f, line, fn in reversed(frames):
+        rf = os.path.realpath(f)
+        if rf.startswith(root):
+            return ("%s:%s" % (os.path.relpath(rf, os.path.realpath(common.REPO)), line), fn)
+        if rf.startswith(mine):
+            return None
     return None
 
 
